@@ -710,9 +710,9 @@ Proof.
       * intros ND; inversion ND; subst. constructor; [intros Hin; apply I1 in Hin; contradiction|auto].
 Qed.
 
-Lemma stake_loop2_spec : forall dbg sl required order c,
+Lemma stake_loop2_spec : forall dbg sl required lastvalid order c,
   c < W64 ->
-  match stake_loop2 dbg sl required order c with
+  match stake_loop2 dbg sl required lastvalid order c with
   | Ok r => incl (snd r) order /\ (NoDup order -> NoDup (snd r)) /\ fst r < W64 /\
             fst r mod W64 = (c + sum_keys sl (snd r)) mod W64 /\
             (dbg = true -> fst r = c + sum_keys sl (snd r))
@@ -724,6 +724,11 @@ Proof.
   - cbn [snd fst sum_keys fold_right]. rewrite N.add_0_r. splits; auto. intros y Hy; exact Hy.
   - destruct (mget k sl) as [x|] eqn:Hget; [|discriminate].
     assert (Hamt : amt_of sl k = ws_amt x) by (unfold amt_of; rewrite Hget; reflexivity).
+    destruct (ws_bid x <? lastvalid).
+    { specialize (IH c Hc). destruct (stake_loop2 dbg sl required lastvalid t c) as [r| |s]; auto.
+      destruct IH as (I1 & I2 & I3 & I4 & I5). splits; auto.
+      - intros y Hy; right; apply I1, Hy.
+      - intros ND; inversion ND; auto. }
     destruct (add64 dbg SITE_NOLAN_ADD c (ws_amt x)) as [c'| |s] eqn:Ea; cbn [bind].
     2: { eapply add64_not_err; eauto. }
     2: { apply add64_panic in Ea as [-> _]. discriminate. }
@@ -734,7 +739,7 @@ Proof.
     + cbn [snd fst]. rewrite sum_keys_cons, Hamt. cbn [sum_keys fold_right]. rewrite N.add_0_r. splits; auto.
       * intros y [<-|[]]; left; reflexivity.
       * intros; constructor; [intros []|constructor].
-    + specialize (IH c' H1). destruct (stake_loop2 dbg sl required t c') as [r| |s]; cbn [bind]; auto.
+    + specialize (IH c' H1). destruct (stake_loop2 dbg sl required lastvalid t c') as [r| |s]; cbn [bind]; auto.
       destruct IH as (I1 & I2 & I3 & I4 & I5). cbn [snd fst]. rewrite sum_keys_cons, Hamt. splits; auto.
       * intros y [<-|Hy]; [left; reflexivity|right; apply I1, Hy].
       * intros ND; inversion ND; subst. constructor; [intros Hin; apply I1 in Hin; contradiction|auto].
@@ -758,8 +763,8 @@ Proof.
   assert (NDs : NoDup sorted) by (eapply Permutation_NoDup; [symmetry; exact Hperm|exact ND]).
   assert (HIs : incl sorted (w_unspent w)).
   { intros y Hy. apply HI. eapply Permutation_in; eauto. }
-  pose proof (stake_loop2_spec dbg (w_slips w) (amount - collected) sorted 0 ltac:(reflexivity)) as H2.
-  destruct (stake_loop2 dbg (w_slips w) (amount - collected) sorted 0) as [[c2 sel2]| |s];
+  pose proof (stake_loop2_spec dbg (w_slips w) (amount - collected) lastvalid sorted 0 ltac:(reflexivity)) as H2.
+  destruct (stake_loop2 dbg (w_slips w) (amount - collected) lastvalid sorted 0) as [[c2 sel2]| |s];
     cbn [bind safe]; auto.
   destruct H2 as (I1 & I2 & I3 & I4 & I5). cbn [fst snd] in *. rewrite N.add_0_l in *.
   destruct (c2 <? amount - collected); [cbn [safe fst]; split; auto|].
